@@ -1,2 +1,150 @@
-(* C10 - statements only (proofs pending). *)
-From N2 Require Import Model.All.
+(* C10 - every manifest written in the Ninja syntax n2 supports loads into exactly the declared
+   statements; the result does not depend on spacing, placement of line continuations, or `$var`
+   versus `${var}` spelling.  PARSER half (text -> statements); the loader half (statements ->
+   graph) is in C11/C14.  Statements only.
+
+   Vocabulary (Proofs/ParseSpell.v):
+     spells_eval path es txt     txt is a spelling of the eval string es (path: on a build/default line)
+     spells_paths / spells_build_line / spells_block / spells_stmt ln st txt
+                                 the same for path lists, the build line, indented bindings, statements
+     spells_pre vs vs' F         F = blank lines, comment lines, file-level bindings taking vs to vs'
+     follow_ok st X              what must follow the statement (newline behind include/subninja,
+                                 otherwise any byte but a space)
+   Results are compared up to [norm_eval]/[norm_stmt] (adjacent literals merged, empty literals
+   dropped), because the parser keeps the pieces as it read them ("a$ b" -> [Lit a; Lit " "; Lit b]).
+   In every theorem the buffer is pre ++ text ++ rest ++ [NUL], the scanner stands at the text, and
+   the buffer has no '\r' (Scanner::back steps back two bytes over "\r\n").
+   [..._roundtrip]: for ANY fuel the result is SFuel or the stated one; [..._total]: with the
+   loader's fuel it is the stated one (uses C12's fuel bound). *)
+From Coq Require Import String.
+From N2 Require Import Model.All Proofs.ParseSpell.
+From N2 Require Import Proofs.ParseRoundScan Proofs.ParseRound1 Proofs.ParseRound2 Proofs.ParseRound3
+     Proofs.ParseRoundMain Proofs.ParseRoundTotal Proofs.ParseRoundFile Proofs.ParseRoundEx.
+
+(* evaluation only sees the normal form, and the normal form is canonical *)
+Theorem C10_evaluate_norm : forall envs es, evaluate envs (norm_eval es) = evaluate envs es.
+Proof. exact evaluate_norm. Qed.
+Print Assumptions C10_evaluate_norm.
+
+Theorem C10_norm_eval_canonical : forall es es', norm_eval es = norm_eval es' <-> atoms es = atoms es'.
+Proof. exact norm_eval_iff. Qed.
+Print Assumptions C10_norm_eval_canonical.
+
+(* Stage 1: an eval string *)
+Theorem C10_eval_roundtrip : forall path es txt pre rest s fuel,
+  spells_eval path es txt -> txt <> [] -> eval_stop path (rest ++ [0%N]) ->
+  ~ In 13%N (pre ++ rest) ->
+  sbuf s = pre ++ txt ++ rest ++ [0%N] -> sofs s = length pre ->
+  read_eval fuel path s = SFuel \/
+  exists es', read_eval fuel path s =
+              SOk es' (mkScanner (sbuf s) (length (pre ++ txt)) (sline s + nlz txt)) /\
+              norm_eval es' = norm_eval es /\ es' <> [].
+Proof. exact eval_roundtrip. Qed.
+Print Assumptions C10_eval_roundtrip.
+
+Theorem C10_eval_spelling_independent :
+  forall path es t1 t2 pre1 rest1 pre2 rest2 s1 s2 fuel1 fuel2 es1 es2 z1 z2,
+  spells_eval path es t1 -> spells_eval path es t2 -> t1 <> [] -> t2 <> [] ->
+  eval_stop path (rest1 ++ [0%N]) -> eval_stop path (rest2 ++ [0%N]) ->
+  ~ In 13%N (pre1 ++ rest1) -> ~ In 13%N (pre2 ++ rest2) ->
+  sbuf s1 = pre1 ++ t1 ++ rest1 ++ [0%N] -> sofs s1 = length pre1 ->
+  sbuf s2 = pre2 ++ t2 ++ rest2 ++ [0%N] -> sofs s2 = length pre2 ->
+  read_eval fuel1 path s1 = SOk es1 z1 -> read_eval fuel2 path s2 = SOk es2 z2 ->
+  norm_eval es1 = norm_eval es2 /\ forall envs, evaluate envs es1 = evaluate envs es2.
+Proof. exact eval_spelling_independent. Qed.
+Print Assumptions C10_eval_spelling_independent.
+
+(* Stage 2: the build statement, entered behind "build" and its white space: exactly the declared
+   lists and counts, the line of the scanner, and the block's bindings *)
+Theorem C10_build_roundtrip : forall fixed pre L Bt rest d bl s fuel,
+  spells_build_line d L -> spells_block (fun _ => true) bl Bt ->
+  (exists c r, rest ++ [0%N] = c :: r /\ c <> 32%N) ->
+  ~ In 13%N (sbuf s) ->
+  sbuf s = pre ++ L ++ Bt ++ rest ++ [0%N] -> sofs s = length pre ->
+  read_build fixed fuel s = SFuel \/
+  exists b, read_build fixed fuel s =
+            SOk (SBuild b) (mkScanner (sbuf s) (length (pre ++ L ++ Bt)) (sline s + nlz (L ++ Bt))) /\
+            norm_build b = norm_build (decl_build d (sline s) (block_vars bl)).
+Proof. exact build_roundtrip. Qed.
+Print Assumptions C10_build_roundtrip.
+
+(* Stage 3: Parser::read on filler, file-level bindings and one statement *)
+Theorem C10_statement_roundtrip : forall fixed pre F txt rest vs vs' st s fuel,
+  spells_pre vs vs' F -> spells_stmt (sline s + nlz F) st txt -> follow_ok st (rest ++ [0%N]) ->
+  ~ In 13%N (sbuf s) ->
+  sbuf s = pre ++ F ++ txt ++ rest ++ [0%N] -> sofs s = length pre ->
+  parser_read fixed fuel s vs = SFuel \/
+  exists st', parser_read fixed fuel s vs =
+              SOk (Some st', vs')
+                  (mkScanner (sbuf s) (length (pre ++ F ++ txt)) (sline s + nlz (F ++ txt))) /\
+              norm_stmt st' = norm_stmt st.
+Proof. exact statement_roundtrip. Qed.
+Print Assumptions C10_statement_roundtrip.
+
+Theorem C10_eof_roundtrip : forall fixed pre F vs vs' s fuel,
+  spells_pre vs vs' F -> ~ In 13%N (sbuf s) ->
+  sbuf s = pre ++ F ++ [0%N] -> sofs s = length pre ->
+  parser_read fixed fuel s vs = SFuel \/
+  parser_read fixed fuel s vs =
+  SOk (None, vs') (mkScanner (sbuf s) (length (pre ++ F)) (sline s + nlz F)).
+Proof. exact eof_roundtrip. Qed.
+Print Assumptions C10_eof_roundtrip.
+
+Theorem C10_spelling_independent :
+  forall fixed st vs vs' pre1 F1 t1 rest1 s1 fuel1 r1 z1 pre2 F2 t2 rest2 s2 fuel2 r2 z2,
+  spells_pre vs vs' F1 -> spells_stmt (sline s1 + nlz F1) st t1 -> follow_ok st (rest1 ++ [0%N]) ->
+  ~ In 13%N (sbuf s1) -> sbuf s1 = pre1 ++ F1 ++ t1 ++ rest1 ++ [0%N] -> sofs s1 = length pre1 ->
+  spells_pre vs vs' F2 -> spells_stmt (sline s2 + nlz F2) st t2 -> follow_ok st (rest2 ++ [0%N]) ->
+  ~ In 13%N (sbuf s2) -> sbuf s2 = pre2 ++ F2 ++ t2 ++ rest2 ++ [0%N] -> sofs s2 = length pre2 ->
+  parser_read fixed fuel1 s1 vs = SOk r1 z1 -> parser_read fixed fuel2 s2 vs = SOk r2 z2 ->
+  exists st1 st2, r1 = (Some st1, vs') /\ r2 = (Some st2, vs') /\ norm_stmt st1 = norm_stmt st2.
+Proof. exact statement_spelling_independent. Qed.
+Print Assumptions C10_spelling_independent.
+
+(* with the loader's fuel the parser does not run out of fuel *)
+Theorem C10_statement_roundtrip_total : forall pre F txt rest vs vs' st s,
+  spells_pre vs vs' F -> spells_stmt (sline s + nlz F) st txt -> follow_ok st (rest ++ [0%N]) ->
+  ~ In 13%N (sbuf s) ->
+  sbuf s = pre ++ F ++ txt ++ rest ++ [0%N] -> sofs s = length pre ->
+  exists st', parser_read true (parse_fuel (sbuf s)) s vs =
+              SOk (Some st', vs')
+                  (mkScanner (sbuf s) (length (pre ++ F ++ txt)) (sline s + nlz (F ++ txt))) /\
+              norm_stmt st' = norm_stmt st.
+Proof. exact statement_roundtrip_total. Qed.
+Print Assumptions C10_statement_roundtrip_total.
+
+Theorem C10_eof_roundtrip_total : forall pre F vs vs' s,
+  spells_pre vs vs' F -> ~ In 13%N (sbuf s) ->
+  sbuf s = pre ++ F ++ [0%N] -> sofs s = length pre ->
+  parser_read true (parse_fuel (sbuf s)) s vs =
+  SOk (None, vs') (mkScanner (sbuf s) (length (pre ++ F)) (sline s + nlz F)).
+Proof. exact eof_roundtrip_total. Qed.
+Print Assumptions C10_eof_roundtrip_total.
+
+(* a whole file: the loader's sequence of Parser::read calls ([read_all], ParseSpell.v) returns the
+   declared statements, in order, and the final file-level variables *)
+Theorem C10_file_roundtrip : forall sts vs' text,
+  spells_file 1 [] sts vs' text -> ~ In 13%N text ->
+  exists sts', read_all (S (length (text ++ [0%N]))) (parse_fuel (text ++ [0%N]))
+                        (mkScanner (text ++ [0%N]) 0 1) [] =
+               SOk (sts', vs') (mkScanner (text ++ [0%N]) (length text) (1 + nlz text)) /\
+               map norm_stmt sts' = map norm_stmt sts.
+Proof. exact file_roundtrip. Qed.
+Print Assumptions C10_file_roundtrip.
+
+(* the relations are inhabited: an eval string with every kind of piece; one build statement with
+   every section and a binding, spelled in two ways; filler with a comment, a blank line and a
+   file-level binding (ParseRoundEx.v also runs the parser model on these texts) *)
+Theorem C10_example_eval : spells_eval false ex1_eval ex1_text.
+Proof. exact ex1_spells. Qed.
+Print Assumptions C10_example_eval.
+
+Theorem C10_example_build :
+  spells_stmt 1 ex_build ex_text_a /\ spells_stmt 1 ex_build ex_text_b /\
+  spells_pre [] [(bs "x", bs "1")] ex_filler.
+Proof. exact (conj ex_spells_a (conj ex_spells_b ex_filler_spells)). Qed.
+Print Assumptions C10_example_build.
+
+Theorem C10_example_file : spells_file 1 [] ex_stmts [(bs "x", bs "1")] ex_file.
+Proof. exact ex_file_spells. Qed.
+Print Assumptions C10_example_file.
